@@ -653,8 +653,7 @@ func TestC20(t *testing.T) {
 		jl = append(jl, map[string]any{"case": c})
 	}
 
-	rep.CoqFiles = append(rep.CoqFiles, f.finish(t, dir))
-	rep.CaseFiles = append(rep.CaseFiles, writeJSONL(t, dir, "C20_keystorage_cases.jsonl", jl))
+	f.finishSharded(t, dir, rep, jl, 400)
 	rep.Assumptions = append(rep.Assumptions, "OpenPGP encryption/decryption and HMAC-SHA256 behave as their idealised specification (trusted libraries); protobuf (de)serialisation of the storage is C18's subject")
 	rep.write(t, dir)
 }
